@@ -195,8 +195,8 @@ fn main() -> ExitCode {
         files,
     } = compilation_state;
 
-    // Only invoke the plugins if there were no errors in the Slice files.
-    if !diagnostics.has_errors() {
+    // Only invoke the plugins if there were no errors in the Slice files, and the user didn't ask for a dry-run.
+    if !diagnostics.has_errors() && !slice_options.dry_run {
         // Encode the request which will be sent to each of the code-generation plugins.
         let encoded_request = match encode_generate_code_request(&files) {
             Ok(result) => result,
